@@ -6,7 +6,7 @@ CONSTANTS
   MaxDim = 2
   MaxBlocked = 0
   AssignInf = FALSE
-  FlagDims = {1, 2}
+  FlagDims = {0, 1, 2}
   Mode = "flag"
 VIEW View
 INVARIANT TypeOK
